@@ -20,17 +20,36 @@ namespace CaddyModel.C20
 
 /-! ## 1. redaction -/
 
-/-- **any casing.** A key that is one of the four names up to ASCII case is a credential key. -/
-theorem cred_any_casing (k name : Bytes) (hn : name ∈ credNames) (hk : k.map lowerByte = name) :
-    isCred k = true := by
+/-- the key test before the trailer fix already accepted every ASCII casing of the four names -/
+theorem credOld_any_casing (k name : Bytes) (hn : name ∈ credNames) (hk : k.map lowerByte = name) :
+    isCredOld k = true := by
   have hascii : ∀ b ∈ k, b < 128 := by
     intro b hb
     apply lowerByte_lt
     have : lowerByte b ∈ name := by rw [← hk]; exact List.mem_map.mpr ⟨b, hb, rfl⟩
     exact credNames_ascii name hn _ this
-  unfold isCred foldName
+  unfold isCredOld foldName
   rw [foldAux_ascii k hascii, hk]
   simpa using hn
+
+/-- **any casing.** A key that is one of the four names up to ASCII case is a credential key. -/
+theorem cred_any_casing (k name : Bytes) (hn : name ∈ credNames) (hk : k.map lowerByte = name) :
+    isCred k = true := by
+  have hcolon : (58 : UInt8) ∉ k := by
+    intro h58
+    have : lowerByte 58 ∈ name := by rw [← hk]; exact List.mem_map.mpr ⟨58, h58, rfl⟩
+    exact credNames_no_colon name hn (by simpa [lowerByte] using this)
+  unfold isCred
+  rw [stripTrailer_no_colon k hcolon]
+  exact credOld_any_casing k name hn hk
+
+/-- **trailer-prefixed keys.** `Trailer:<name>` — how reverse_proxy keeps a trailer field the upstream did
+    not announce — is a credential key too, for every ASCII casing of the name. -/
+theorem cred_trailer_any_casing (k name : Bytes) (hn : name ∈ credNames) (hk : k.map lowerByte = name) :
+    isCred (trailerPrefix ++ k) = true := by
+  unfold isCred
+  rw [stripTrailer_prefixed]
+  exact credOld_any_casing k name hn hk
 
 /-- **redacted.** Without `log_credentials`, the logged header object is the header map with the
     same keys in the same order where every credential key — in any casing, with any number of
@@ -45,6 +64,15 @@ theorem redacted_any_casing_any_count (h : Hdr) (k name : Bytes) (vals : List By
   unfold redactSpec
   refine List.mem_map.mpr ⟨(k, vals), hm, ?_⟩
   simp [cred_any_casing k name hn hk, redactedVal]
+
+/-- …and for each trailer field kept under `Trailer:<name>`: -/
+theorem redacted_trailer_any_casing_any_count (h : Hdr) (k name : Bytes) (vals : List Bytes)
+    (hn : name ∈ credNames) (hk : k.map lowerByte = name) (hm : (trailerPrefix ++ k, vals) ∈ h) :
+    (trailerPrefix ++ k, [str "REDACTED"]) ∈ loggableHeader h false := by
+  rw [redacted]
+  unfold redactSpec
+  refine List.mem_map.mpr ⟨(trailerPrefix ++ k, vals), hm, ?_⟩
+  simp [cred_trailer_any_casing k name hn hk, redactedVal]
 
 /-- no header is added or dropped, whatever the flag -/
 theorem logged_keys_are_header_keys (h : Hdr) (c : Bool) : (loggableHeader h c).map (·.1) = h.map (·.1) := by
@@ -355,6 +383,11 @@ example : loggableHeader exHdr true = exHdr := by decide
 -- the Kelvin sign folds to `k`: `cooKie` is redacted as well
 example : isCred ([99, 111, 111, 0xE2, 0x84, 0xAA, 105, 101]) = true := by decide
 example : isCred (str "cookie2") = false ∧ isCred (str "x-cookie") = false := by decide
+-- trailer-prefixed keys: exact prefix, stripped once
+example : isCred (str "Trailer:Set-Cookie") = true ∧ isCred (str "Trailer:aUTHORIZATION") = true ∧
+    isCred (str "trailer:Set-Cookie") = false ∧ isCred (str "Trailer:Trailer:Cookie") = false := by decide
+example : loggableHeader [(str "Trailer:Set-Cookie", [[], str "sid=SECRET"])] false =
+    [(str "Trailer:Set-Cookie", [str "REDACTED"])] := by decide
 example : OnlyInCreds (fun b => occurs (str "SECRET") b = true) exHdr := by
   intro kv hkv
   simp [exHdr] at hkv
